@@ -41,7 +41,13 @@ RULE = ("prepared screens: S.gen_raw, arity 1-3 (mostly 1-2), 2-8 plates, 4..14 
         "save_h5+load_h5 through a temp file, and cli.reveal_plate.main() on saved files; a raising step ends the history. "
         "The DESIGN section-7 #1 witness always runs first, then a fixed corpus in which one sample / (treatment, dose) occurs only in "
         "held-out rows and sorts at the START, in the MIDDLE and at the END of the names, each with histories that save+load (library and "
-        "CLI) repeatedly on both sides.  Hardening classes (class.*): every screen object snapshotted (all attributes) around every step "
+        "CLI) repeatedly on both sides.  TRAINING stage (class.entry-point.train_model): a fixed corpus (only the last-sorting / first / a middle sample's plate revealed after "
+        "hold-out + mask, saved, seeds 0 and 7) and 45% of the arity-2 training histories end with the real batchie.cli.train_model.main() on the "
+        "saved screen with a recording subclass of SparseDrugCombo found by the CLI's introspection: the (sample id, treatment ids) reaching "
+        "_add_observations decode through the PREPARED screen's mappings to the row's names/doses, the rows are the observed rows, and the saved "
+        "thetas predict on the test / prepared screen exactly what a reference trained in-process with the prepared ids (same seed) predicts. "
+        "class.verbose-logging: every 7th prepared screen (and one corpus case) runs entirely under vlib.common.verbose_logging(), CLI mains with "
+        "--verbose (replay re-enters it).  Hardening classes (class.*): every screen object snapshotted (all attributes) around every step "
         "and at the end; mapping/control attributes and all ExperimentSpace properties compared by introspection at every stage; after every "
         "reload a posterior sample cut to the RELOADED stage's space sizes must predict the training half, the test screen and the prepared "
         "screen; 25% non-C memory layouts, 10% long names, 7% >= 11 names; the same screen object split twice; up to 8 saved training halves "
@@ -55,6 +61,7 @@ SIG_SPACE = "C03:space-shrank"
 SIG_PRED = "C03:prediction-changed"
 SIG_INPUT = "C03:input-mutated"
 SIG_XPROC = "C03:other-process-differs"
+SIG_TRAIN = "C03:training-ids"
 
 OBS_VALUES = [1.0, 0.5, 0.25, 0.75, 1e-300, 0.3333333333333333, 0.9, 0.1, 2.0, 0.7000000000000001]
 NAN_BITS = [0x7FF8000000000000, 0x7FF8000000000001, 0xFFF8000000000000]
@@ -360,9 +367,11 @@ class Prepared:
     def __init__(self, case, split=True):
         from batchie.retrospective import mask_screen
         self.raw = case_raw(case)
-        self.orig = build_layout(self.raw, case.get("layout", "c"))
-        self.ref = Reference(self.orig, case["theta_seed"], case["dim"])
-        self.P = mask_screen(self.orig) if case["premask"] else self.orig
+        self.case = case
+        with maybe_verbose(case):
+            self.orig = build_layout(self.raw, case.get("layout", "c"))
+            self.ref = Reference(self.orig, case["theta_seed"], case["dim"])
+            self.P = mask_screen(self.orig) if case["premask"] else self.orig
         self.split_error = None
         self.keep = self.test = None
         self.sel = None
@@ -373,9 +382,32 @@ class Prepared:
         self.split_error = None
         self.keep = self.test = self.sel = None
         try:
-            self.keep, self.test, self.sel = do_split(self.P, split)
+            with maybe_verbose(self.case):
+                self.keep, self.test, self.sel = do_split(self.P, split)
         except Exception as e:
             self.split_error = e
+
+
+VERBOSE = [False]          # set while a case runs under vlib.common.verbose_logging(): the CLI mains then get --verbose
+
+
+def run_main(mod, argv):
+    """`mod.main()` with the given command line; the `batchie` logger is put back as it was (configure_logging adds a stream
+    handler and resets the level on every call) and what that handler writes is swallowed"""
+    import io
+    lg = logging.getLogger("batchie")
+    handlers, level = list(lg.handlers), lg.level
+    old_argv, old_err = sys.argv, sys.stderr
+    sys.argv = list(argv) + (["--verbose"] if VERBOSE[0] else [])
+    sys.stderr = io.StringIO()
+    try:
+        mod.main()
+    except SystemExit as e:
+        raise RuntimeError("command line rejected (exit %s)" % (e.code,))
+    finally:
+        sys.argv, sys.stderr = old_argv, old_err
+        lg.handlers[:] = handlers
+        lg.setLevel(level)
 
 
 def cli_reveal(cur, ids, tmp):
@@ -386,17 +418,150 @@ def cli_reveal(cur, ids, tmp):
     if os.path.exists(fout):
         os.remove(fout)
     cur.save_h5(fin)
-    lg = logging.getLogger("batchie")
-    handlers, level = list(lg.handlers), lg.level
-    argv = sys.argv
-    sys.argv = ["reveal_plate", "--screen", fin, "--output", fout, "--plate-id"] + [str(int(i)) for i in ids]
-    try:
-        reveal_plate.main()
-    finally:
-        sys.argv = argv
-        lg.handlers[:] = handlers
-        lg.setLevel(level)
+    run_main(reveal_plate, ["reveal_plate", "--screen", fin, "--output", fout, "--plate-id"] + [str(int(i)) for i in ids])
     return Screen.load_h5(fout)
+
+
+# ----------------------------------------------------------------------------- the TRAINING stage through train_model.main()
+
+def recording_model_class():
+    """a subclass of the real SparseDrugCombo that records what `_add_observations` receives; made discoverable for the CLI's
+    introspection (`--model VerifRecordingSparseDrugCombo`) by an attribute on the real model's module"""
+    import batchie.models.sparse_combo as M
+    cls = getattr(M, "VerifRecordingSparseDrugCombo", None)
+    if cls is None:
+        class VerifRecordingSparseDrugCombo(M.SparseDrugCombo):
+            received = []
+
+            def _add_observations(self, data):
+                n = int(np.asarray(data.sample_ids).shape[0])
+                type(self).received.append({
+                    "sample_ids": [int(x) for x in np.asarray(data.sample_ids)],
+                    "treatment_ids": [[int(x) for x in r] for r in np.asarray(data.treatment_ids).reshape(n, -1)],
+                    "sample_names": [str(x) for x in data.sample_names],
+                    "treatment_names": [[str(x) for x in r] for r in data.treatment_names],
+                    "treatment_doses": [[float(x) for x in r] for r in data.treatment_doses],
+                    "observations": [S.bits(x) for x in data.observations]})
+                return super()._add_observations(data)
+        M.VerifRecordingSparseDrugCombo = cls = VerifRecordingSparseDrugCombo
+    return cls
+
+
+def trainable(stage):
+    """can the training stage run on this screen: arity 2 (the real model's shape), some but valid observed rows"""
+    if stage is None or int(stage.size) == 0 or int(stage.treatment_arity) != 2:
+        return False
+    m = np.asarray(stage.observation_mask, dtype=bool)
+    o = np.asarray(stage.observations, dtype=float)[m]
+    return bool(m.any()) and bool(np.all(np.isfinite(o))) and bool(np.all(o >= 0))
+
+
+def trainable_with(prep, stage):
+    return prep.ref.theta is not None and trainable(stage)
+
+
+def train_stage(prep, stage, case, tmp, res, step):
+    """The TRAINING stage of the simulation through the real `batchie.cli.train_model.main()` on the saved (partially observed)
+    stage.  Oracles: (1) what the model RECEIVES -- for every observed row the (sample id, treatment ids) handed to
+    `_add_observations` are the ids the prepared screen's mappings give that row's sample name and (treatment, dose)s, and the rows
+    are the stage's observed rows; (2) the thetas file written: embedding sizes those of the prepared screen's space, and every saved
+    posterior sample predicts on the held-out test screen / the prepared screen exactly what a reference trained in-process on the
+    same rows WITH THE PREPARED IDS predicts.  Returns True when an oracle failed."""
+    from batchie import sampling
+    from batchie.cli import train_model
+    from batchie.core import ThetaHolder
+    from batchie.data import ExperimentSpace, Screen
+    from batchie.models.sparse_combo import SparseDrugCombo
+    ref = prep.ref
+    c = dict(case)
+    c["failing_step"] = step
+    seed = int(case["train"]["seed"])
+    cls = recording_model_class()
+    fin, fout = os.path.join(tmp, "train_in.h5"), os.path.join(tmp, "train_out.h5")
+    if os.path.exists(fout):
+        os.remove(fout)
+    # reference FIRST: the same rows, encoded with the PREPARED screen's mappings, trained in-process with the same seed; when the
+    # real model itself refuses these rows (e.g. a space without any non-control treatment) there is nothing to compare
+    m = np.asarray(stage.observation_mask, dtype=bool)
+    orig = prep.orig
+    try:
+        data = Screen(treatment_names=np.asarray(stage.treatment_names)[m].copy(), treatment_doses=np.asarray(stage.treatment_doses)[m].copy(),
+                      sample_names=np.asarray(stage.sample_names)[m].copy(), plate_names=np.asarray(stage.plate_names)[m].copy(),
+                      observations=np.asarray(stage.observations)[m].copy(), control_treatment_name=orig.control_treatment_name,
+                      treatment_mapping=orig.treatment_mapping, sample_mapping=orig.sample_mapping)
+        model = SparseDrugCombo(experiment_space=ExperimentSpace.from_screen(orig), n_embedding_dimensions=2)
+        model.add_observations(data)
+        rh = sampling.sample(model=model, results=ThetaHolder(n_thetas=2), seed=seed, n_chains=1, chain_index=0, n_burnin=1, thin=1,
+                             progress_bar=False)
+        rthetas = [rh.get_theta(i) for i in range(rh.n_thetas)]
+    except Exception:
+        res.count("train.reference-model-refuses-the-rows")
+        return False
+    stage.save_h5(fin)
+    cls.received = []
+    try:
+        run_main(train_model, ["train_model", "--data", fin, "--model", "VerifRecordingSparseDrugCombo", "--model-param",
+                               "n_embedding_dimensions=2", "--output", fout, "--n-samples", "2", "--n-burnin", "1", "--thin", "1",
+                               "--n-chains", "1", "--chain-index", "0", "--seed", str(seed)])
+    except Exception as e:
+        res.fail("train_model.main() raises on a saved, partially observed training screen", c, "%s: %s" % (type(e).__name__, e),
+                 "a thetas file", signature=SIG_TRAIN)
+        return True
+    got = cls.received
+    want_rows = sorted(zip([str(x) for x in np.asarray(stage.sample_names)[m]],
+                           [tuple(str(x) for x in r) for r in np.asarray(stage.treatment_names)[m]],
+                           [tuple(float(x) for x in r) for r in np.asarray(stage.treatment_doses)[m]],
+                           [S.bits(x) for x in np.asarray(stage.observations)[m]]))
+    rows = []
+    for rec in got:
+        for i in range(len(rec["sample_ids"])):
+            sname, sid = rec["sample_names"][i], rec["sample_ids"][i]
+            if ref.s_id.get(sname) != sid:
+                res.fail("the model is trained with a sample id that is not the id of that sample name in the prepared screen", c,
+                         {"step": step, "sample": sname, "id_reaching_the_model": sid, "all_sample_ids": rec["sample_ids"]},
+                         {"id": ref.s_id.get(sname), "name_of_that_id_in_prepared_screen": ref.s_inv.get(sid)}, signature=SIG_TRAIN)
+                return True
+            for j in range(len(rec["treatment_ids"][i])):
+                key = (rec["treatment_names"][i][j], rec["treatment_doses"][i][j])
+                tid = rec["treatment_ids"][i][j]
+                if ref.t_id.get(key) != tid:
+                    res.fail("the model is trained with a treatment id that is not the id of that (treatment, dose) in the prepared screen", c,
+                             {"step": step, "treatment": key[0], "dose": key[1], "id_reaching_the_model": tid, "all_treatment_ids": rec["treatment_ids"]},
+                             {"id": ref.t_id.get(key), "condition_of_that_id_in_prepared_screen": ref.t_inv.get(tid)}, signature=SIG_TRAIN)
+                    return True
+            rows.append((sname, tuple(rec["treatment_names"][i]), tuple(rec["treatment_doses"][i]), rec["observations"][i]))
+    if sorted(rows) != want_rows:
+        res.fail("the rows reaching the model are not the observed rows of the training screen", c,
+                 {"step": step, "n_received": len(rows)}, {"n_observed": len(want_rows)}, signature=SIG_TRAIN)
+        return True
+    # ---- the file written
+    try:
+        holder = ThetaHolder(n_thetas=2).load_h5(fout)
+        thetas = [holder.get_theta(i) for i in range(holder.n_thetas)]
+    except Exception as e:
+        res.fail("the thetas file written by train_model.main() does not load", c, "%s: %s" % (type(e).__name__, e), "two posterior samples",
+                 signature=SIG_TRAIN)
+        return True
+    if len(thetas) != len(rthetas):
+        res.fail("train_model.main() saved another number of posterior samples than asked for", c, len(thetas), len(rthetas), signature=SIG_TRAIN)
+        return True
+    for name, scr in (("held-out test screen", prep.test), ("prepared screen", prep.orig)):
+        if scr is None or int(scr.size) == 0:
+            continue
+        for i, (a, b) in enumerate(zip(thetas, rthetas)):
+            try:
+                va, vb = np.array(a.predict_viability(scr)), np.array(b.predict_viability(scr))
+                ok = np.array_equal(va, vb)
+                seen = {"step": step, "on": name, "theta": i, "viability": [float(x) for x in va]}
+            except Exception as e:
+                ok, vb = False, None
+                seen = {"step": step, "on": name, "theta": i, "raised": "%s: %s" % (type(e).__name__, e)}
+            if not ok:
+                res.fail("posterior samples saved by train_model.main() predict on the %s differently from samples trained with the "
+                         "prepared screen's ids on the same rows (same seed)" % name, c, seen,
+                         {"viability": None if vb is None else [float(x) for x in vb]}, signature=SIG_TRAIN)
+                return True
+    return False
 
 
 def apply_op(cur, op, tmp):
@@ -450,7 +615,29 @@ def gen_op(rng, cur, lean=False):
     return [k, ids]
 
 
+import contextlib
+
+
+@contextlib.contextmanager
+def maybe_verbose(case):
+    """cases with "verbose": true run the way every command runs under -v/--verbose (replay re-enters this)"""
+    if case.get("verbose"):
+        with common.verbose_logging():
+            VERBOSE[0] = True
+            try:
+                yield
+            finally:
+                VERBOSE[0] = False
+    else:
+        yield
+
+
 def run_side(prep, case, tmp, res, gen=None, n_ops=0, check=True, lean=False):
+    with maybe_verbose(case):
+        return _run_side(prep, case, tmp, res, gen=gen, n_ops=n_ops, check=check, lean=lean)
+
+
+def _run_side(prep, case, tmp, res, gen=None, n_ops=0, check=True, lean=False):
     """history on one half.  With `gen` the operations are generated (and recorded in case['ops']), otherwise the recorded
     ones are re-executed.  Returns (model line, impl entries, info)."""
     side = case["side"]
@@ -526,6 +713,12 @@ def run_side(prep, case, tmp, res, gen=None, n_ops=0, check=True, lean=False):
             # a model sized by the RELOADED stage must still index the training half, the test screen and the prepared screen
             failed = check_resized_theta(ref, cur, targets, dict(case, ops=list(done)), step, res)
             info["reloads"] = info.get("reloads", 0) + 1
+    if check and not failed and cur is not None and case.get("train") and trainable_with(prep, cur):
+        before = attrs_snapshot(cur)
+        failed = train_stage(prep, cur, dict(case, ops=list(done)), tmp, res, "training stage after %d op(s)" % len(done))
+        info["trained"] = True
+        if not failed:
+            failed = check_untouched(res, dict(case, ops=list(done)), cur, before, "train_model (saving the training screen)", "training stage")
     if check and not failed:
         for o, snap, name in watched:
             if check_untouched(res, dict(case, ops=list(done)), o, snap, "the history (its input, the %s,)" % name, "end of history"):
@@ -697,6 +890,26 @@ def position_cases():
     return out
 
 
+def train_corpus_cases():
+    """fixed corpus for the TRAINING stage (real train_model.main()): one sample per plate; after hold-out + mask only ONE plate is
+    revealed -- the last-sorting sample's (the normal early state of a retrospective simulation: the observed rows lack every sample
+    and two (treatment, dose)s that sort BEFORE the ones present), the first-sorting one (plate id 0, sample id 0) or a middle one --
+    the screen is saved and reloaded, then the model is trained through the command line on it; seeds 0 and 7"""
+    rows = [("s1", "t1", "t3"), ("s1", "t3", "t5"), ("s1", "t1", "t5"), ("s3", "t1", "t3"), ("s3", "t3", "t7"), ("s3", "control", "t1"),
+            ("s5", "t1", "t5"), ("s5", "t5", "t7"), ("s5", "t3", "t1"), ("s7", "t5", "t7"), ("s7", "t7", "t5"), ("s7", "control", "t7"),
+            ("s7", "t7", "t7")]
+    raw = dict(ctrl="control", arity=2, tnames=[[a, b] for _, a, b in rows], tdoses=[[0.0 if a == "control" else 1.0, 1.0] for _, a, b in rows],
+               snames=[x for x, _, _ in rows], pnames=["plate_" + x for x, _, _ in rows],
+               obs=[0.05 + 0.07 * i for i in range(len(rows))], mask=None, tmap=None, smap=None)
+    sel = [int(i in (1, 10)) for i in range(len(rows))]                 # one row of s1 and one of s7 are held out
+    out = []
+    for pid, seed, verbose in ((3, 0, False), (3, 7, True), (0, 0, False), (1, 7, False)):
+        out.append({"raw": raw, "obs_bits": obs_bits_list(raw), "premask": False, "theta_seed": 5, "dim": 2, "kind": "train-corpus-plate-%d" % pid,
+                    "split": {"fn": "random", "mode": "stub", "seed": None, "fraction": stub_fraction(2, len(rows)), "sel": sel},
+                    "side": "train", "ops": [["m"], ["r", [pid]], ["s"]], "train": {"seed": seed}, "verbose": verbose})
+    return out
+
+
 def name_positions(orig, hs, ht):
     """where the hold-out-only names sit in the sort order of the prepared screen's mapping names: start / middle / end"""
     out = set()
@@ -737,7 +950,7 @@ def run(ctx, res):
     try:
         # fixed corpus: DESIGN section 7 #1
         xproc = []
-        for case in witness_cases() + position_cases():
+        for case in witness_cases() + position_cases() + train_corpus_cases():
             try:
                 prep = Prepared(case)
             except Exception as e:
@@ -745,7 +958,13 @@ def run(ctx, res):
                 continue
             line, entries, info = run_side(prep, case, tmp, res)
             res.evaluations += 1
-            res.count("corpus.witness" if case["kind"] == "witness" else "corpus.position")
+            res.count("corpus.witness" if case["kind"] == "witness" else "corpus.train" if case.get("train") else "corpus.position")
+            if info.get("trained"):
+                res.count("class.entry-point.train_model")
+            if any(o[0] == "cli" for o in case["ops"]):
+                res.count("class.entry-point.reveal_plate")
+            if case.get("verbose"):
+                res.count("class.verbose-logging")
             queue.append((line, entries, case))
             hs, ht = holdout_only(prep.orig, prep.sel, prep.ref)
             if case["kind"] != "witness":
@@ -767,7 +986,7 @@ def run(ctx, res):
             raw, prep_kind = gen_prepared(rng, n_max)
             base = {"raw": raw, "obs_bits": obs_bits_list(raw), "premask": rng.random() < 0.4,
                     "theta_seed": rng.randrange(2 ** 31), "dim": rng.choice([2, 3]), "kind": prep_kind,
-                    "layout": rng.choice(LAYOUTS) if rng.random() < 0.25 else "c"}
+                    "layout": rng.choice(LAYOUTS) if rng.random() < 0.25 else "c", "verbose": t % 7 == 3}
             # the split is chosen looking at the built screen (unobserved plates, conditions)
             try:
                 prep = Prepared(base, split=False)
@@ -837,6 +1056,9 @@ def run(ctx, res):
                 res.count("hold-out-only.any")
             for side in ("train", "test"):
                 case = dict(base, side=side, ops=[])
+                if side == "train" and raw["arity"] == 2 and rng.random() < 0.45:
+                    # the training stage through train_model.main() on the screen the history ends with (seed 0 included)
+                    case["train"] = {"seed": rng.choice([0, 0, 1, 7, rng.randrange(2 ** 31)])}
                 if not lean:
                     k = rng.randint(1, max_ops)
                 elif side == "train":                  # thorough: half the training histories up to 20 steps, the rest up to 8
@@ -847,6 +1069,12 @@ def run(ctx, res):
                 res.evaluations += 1
                 res.count("stages", info["steps"] + 1)
                 account(res, case, info)
+                if info.get("trained"):
+                    res.count("class.entry-point.train_model")
+                if any(o[0] == "cli" for o in case["ops"]):
+                    res.count("class.entry-point.reveal_plate")
+                if case.get("verbose"):
+                    res.count("class.verbose-logging")
                 queue.append((line, entries, case))
                 if side == "train" and (hs or ht) and info["ok_structural"]:
                     res.nontrivial.add(common.short_hash([raw, split, case["ops"]]))
